@@ -109,6 +109,12 @@ enum Carrier {
 
 /// AAD / payload bytes: mostly short, sometimes on a CBOR length-class boundary.
 fn gen_data(g: &mut Gen) -> Vec<u8> {
+    if g.ratio(1, 400) {
+        // around the powers of two where an implementation might switch strategy (64 KiB, 1 MiB)
+        let n = *g.pick(&[(1usize << 16) - 1, 1 << 16, (1 << 20) - 1, 1 << 20, (1 << 20) + 1, 1 << 21]);
+        let seed = g.bytes(5);
+        return (0..n).map(|i| seed[i % 5] ^ (i / 5) as u8).collect();
+    }
     if g.ratio(1, 12) {
         gen_class_bytes(g)
     } else {
